@@ -391,12 +391,141 @@ func runC06(c *core.Ctx) {
 			}
 		}
 	}
+
+	// phase (iv): isolation between configurations on content nobody has seen before.  A document carrying a fresh
+	// nonce (so that nothing keyed by content can know it yet) is converted by configuration A, then by another
+	// configuration B, then by A again and by a brand-new A: what B did with the same bytes in between must not show.
+	// (Phases i-iii cannot see a process-wide memo keyed by content: once any configuration has converted a document,
+	// every later "reference" for that document is already taken from the polluted process.)
+	nonce := 1000000000 + (int(c.Seed)%400)*1000003 + c.Shard*15485863 // ten digits throughout
+	nq := c.PerShard(c.N(24000, 1200000))
+	for q := 0; q < nq; q++ {
+		nonce += 2
+		a := s.specs[r.Intn(len(s.specs))]
+		b := s.specs[r.Intn(len(s.specs))]
+		if q%3 == 0 {
+			// the twin that differs in one renderer flag only
+			b = a
+			switch r.Intn(3) {
+			case 0:
+				b.Unsafe = !b.Unsafe
+			case 1:
+				b.XHTML = !b.XHTML
+			default:
+				b.HardWraps = !b.HardWraps
+			}
+		}
+		if a.Name() == b.Name() {
+			continue
+		}
+		pl := c06NoncePayloads[r.Intn(len(c06NoncePayloads))]
+		role := c06Roles[r.Intn(len(c06Roles))]
+		tmpl := strings.ReplaceAll(role, "@P@", pl)
+		if r.Intn(3) == 0 {
+			tmpl += strings.ReplaceAll(c06Roles[r.Intn(len(c06Roles))], "@P@", pl)
+		}
+		doc := []byte(strings.ReplaceAll(tmpl, "@N@", fmt.Sprint(nonce)))
+		// the same document with another nonce, which no configuration converts before B does
+		sibling := []byte(strings.ReplaceAll(tmpl, "@N@", fmt.Sprint(nonce+1)))
+		get := func(sp cfg.Spec) goldmark.Markdown {
+			md := s.long[sp.Name()]
+			if md == nil {
+				md = sp.Build()
+				s.long[sp.Name()] = md
+			}
+			return md
+		}
+		c.Begin(a.Name(), doc)
+		first := convert(get(a), doc)
+		other := convert(get(b), doc)
+		again := convert(get(a), doc)
+		fresh := convert(a.Build(), doc)
+		alone := convert(get(b), sibling)
+		c.End()
+		c.Evals(5)
+		c.Count("phase4_isolation_triples", 1)
+		if !first.OK() || !other.OK() || !again.OK() || !fresh.OK() || !alone.OK() {
+			continue
+		}
+		// B after A on nonce n against B alone on nonce n+1: equal up to the nonce itself
+		if x, y := bytes.ReplaceAll(other.Out, []byte(fmt.Sprint(nonce)), []byte("N")), bytes.ReplaceAll(alone.Out, []byte(fmt.Sprint(nonce+1)), []byte("N")); !bytes.Equal(x, y) {
+			class, locus := "cross-configuration-interference", extName(b)+"<-"+extName(a)+":"+c06FlagDiff(a, b)+":second"
+			detail := fmt.Sprintf("document %q\n1. %s converts it\n2. %s converts the same bytes: %q\n3. %s converts the same document with another nonce, which nobody has converted: %q", doc, a.Name(), b.Name(), other.Out, b.Name(), alone.Out)
+			if c.Seen(class, locus) {
+				c.Violation(&core.Violation{Class: class, Locus: locus, Config: b.Name(), Input: doc})
+			} else {
+				c.Violation(&core.Violation{Class: class, Locus: locus, Config: b.Name(), Input: doc, Detail: detail,
+					Script: map[string]any{"isolation": true, "other": a.Name(), "second": true}})
+			}
+			continue
+		}
+		for wi, res := range []convResult{again, fresh} {
+			if !bytes.Equal(first.Out, res.Out) {
+				who := "the same long-lived instance"
+				if wi == 1 {
+					who = "a brand-new instance of the same configuration"
+				}
+				class, locus := "cross-configuration-interference", extName(a)+"<-"+extName(b)+":"+c06FlagDiff(a, b)
+				detail := fmt.Sprintf("document %q\n1. %s converts it: %q\n2. %s converts the same bytes\n3. %s converts it again: %q", doc, a.Name(), first.Out, b.Name(), who, res.Out)
+				if c.Seen(class, locus) {
+					c.Violation(&core.Violation{Class: class, Locus: locus, Config: a.Name(), Input: doc})
+				} else {
+					c.Violation(&core.Violation{Class: class, Locus: locus, Config: a.Name(), Input: doc, Detail: detail,
+						Script: map[string]any{"isolation": true, "other": b.Name()}})
+				}
+				break
+			}
+		}
+	}
+}
+
+// c06NoncePayloads carry "@N@", replaced by a number no earlier document of the process contains.
+var c06NoncePayloads = []string{"javascript:alert(@N@)", "JAVASCRIPT&colon;x@N@", "data:text/html,@N@", "http://e.com/@N@?a=1&amp;b=2", "http://e.com/@N@\\*b", "http://e.com/&#35;@N@",
+	"vbscript:@N@", "file:///etc/@N@", "http://e.com/a b@N@", "t@N@ \"q\" -- ...", "a@N@@b.cd", "&amp;@N@ <b>@N@</b>"}
+
+func c06FlagDiff(a, b cfg.Spec) string {
+	var d []string
+	if a.Unsafe != b.Unsafe {
+		d = append(d, "unsafe")
+	}
+	if a.XHTML != b.XHTML {
+		d = append(d, "xhtml")
+	}
+	if a.HardWraps != b.HardWraps {
+		d = append(d, "hardwraps")
+	}
+	if a.AutoHeadingID != b.AutoHeadingID || a.Attribute != b.Attribute {
+		d = append(d, "parser-options")
+	}
+	return strings.Join(d, "+")
 }
 
 func replayC06(c *core.Ctx, v *core.Violation) (bool, string) {
 	// single-instance replays: re-run the recorded history on a new instance and compare each op with another new instance
 	spec := specOf(v.Config)
 	sc, ok := v.Script.(map[string]any)
+	if iso, _ := sc["isolation"].(bool); ok && iso {
+		on, _ := sc["other"].(string)
+		if sec, _ := sc["second"].(bool); sec {
+			// v.Config is the configuration that converted second
+			alone := convert(spec.Build(), v.Input)
+			_ = convert(specOf(on).Build(), v.Input)
+			after := convert(spec.Build(), v.Input)
+			if alone.OK() && after.OK() && !bytes.Equal(alone.Out, after.Out) {
+				return true, "a new " + v.Config + " instance converts the document differently once " + on + " has converted the same bytes"
+			}
+			return false, "no interference in this order in a fresh process (the payload may already be known to the process: re-run the check with the recorded seed)"
+		}
+		a, b := spec.Build(), specOf(on).Build()
+		first := convert(a, v.Input)
+		_ = convert(b, v.Input)
+		again := convert(a, v.Input)
+		fresh := convert(spec.Build(), v.Input)
+		if first.OK() && again.OK() && fresh.OK() && (!bytes.Equal(first.Out, again.Out) || !bytes.Equal(first.Out, fresh.Out)) {
+			return true, "converting the same bytes with " + on + " in between changes what " + v.Config + " produces"
+		}
+		return false, "no interference (a process-wide memo keyed by content needs a payload the process has not seen: re-run the check with the recorded seed)"
+	}
 	if !ok {
 		// render-mutates-tree: parse and render twice
 		md := spec.Build()
